@@ -197,6 +197,13 @@ func (e *env) eval(t M) []byte {
 			b[at] = byte(num(t["v"]))
 		}
 		return b
+	case "addbyte":
+		b := append([]byte(nil), e.eval(m(t["of"]))...)
+		at := idx(num(t["at"]), len(b))
+		if at >= 0 && at < len(b) {
+			b[at] += byte(num(t["v"]))
+		}
+		return b
 	case "eq":
 		if bytes.Equal(e.eval(m(t["a"])), e.eval(m(t["b"]))) {
 			return []byte{1}
